@@ -17,7 +17,7 @@ ASSUMPTIONS = [
     "branches and path feasibility",
     "for measurements the envelope partner of an addressed member counts as addressed unless separate_measurement",
 ]
-BOUNDS = {"quick": "2 worlds x ~45 actions (single operations, CX, Kraus on 1/2 subsystems, POVM, projective measurement, partial "
+BOUNDS = {"quick": "3 worlds (up to three product spaces in one composite) x ~40 actions (single operations, CX, Kraus on 1/2 subsystems, POVM, projective measurement, partial "
                    "trace, resize, combine, reorder) over 3 envelopes + 1 custom state",
           "thorough": "same"}
 OPTS = {"quick": {"max_paths": 32, "timeout_ms": 10000, "case_timeout_s": 900, "exact_close": True},
@@ -36,6 +36,10 @@ def _worlds():
                           {"kind": "ps", "ce": 0, "members": ["f1", "p1"], "level": "V"},
                           {"kind": "own", "sub": "p2", "level": "V"},
                           {"kind": "own", "sub": "f2", "level": "L", "label": 1}], comp),
+        "C": cm.world(S, [{"kind": "ps", "ce": 0, "members": ["p0", "c0"], "level": "V"},
+                          {"kind": "ps", "ce": 0, "members": ["f1", "p1"], "level": "V"},
+                          {"kind": "ps", "ce": 0, "members": ["p2", "f2"], "level": "V"},
+                          {"kind": "own", "sub": "f0", "level": "V"}], comp),
     }
 
 
@@ -55,7 +59,7 @@ ACTIONS = [
 
 def cases(tier):
     out = []
-    for wid in ("A", "B"):
+    for wid in ("A", "B", "C"):
         for act, tg in ACTIONS:
             out.append({"id": f"{wid}/{act}/{','.join(tg)}", "world": wid, "act": act, "targets": tg})
     return out
